@@ -99,6 +99,47 @@ def branch_facts(prog, fn, cx=None):
         else:
             for (dst, lab) in edges:
                 out.append(((b, dst, lab), ("int", d, lab)))
+    # `cond.then_some(v).ok_or(E)?` / `cond.then(|| v)`: the Option/Result is Some/Ok exactly when cond holds
+    extra = []
+    for (e, fa) in out:
+        if fa[0] == "succ":
+            c = then_cond(fa[1])
+            if c is not None:
+                kind, a, bb_, pos = norm_cond(c)
+                extra.append((e, ("cond", kind, a, bb_, fa[2] == pos)))
+    return out + extra
+
+
+def peel_result(X):
+    """strip Result/Option plumbing that does not change success: ok_or / map_err / ok_or_else"""
+    while isinstance(X, tuple) and X:
+        if X[0] in ("ok_or", "map_err"):
+            X = X[1]
+        elif X[0] == "call" and X[1].rsplit("::", 1)[-1] in ("ok_or", "ok_or_else", "map_err") and X[2]:
+            X = X[2][0]
+        else:
+            break
+    return X
+
+
+def then_cond(X):
+    """X = cond.then_some(v) / cond.then(f) (possibly under ok_or/map_err): the condition term, else None"""
+    Y = peel_result(X)
+    if isinstance(Y, tuple) and Y and Y[0] == "call" and Y[1].rsplit("::", 1)[-1] in ("then_some", "then") and \
+            "bool" in Y[1] and len(Y[2]) == 2:
+        return Y[2][0]
+    return None
+
+
+def ok_facts_of_value(T):
+    """facts that hold whenever the Result/Option value T is Ok/Some (T is returned or tested elsewhere)"""
+    out = [("succ", T, True)]
+    if peel_result(T) != T:
+        out.append(("succ", peel_result(T), True))
+    c = then_cond(T)
+    if c is not None:
+        kind, a, b, pos = norm_cond(c)
+        out.append(("cond", kind, a, b, pos))
     return out
 
 
@@ -127,7 +168,8 @@ def ret_writes(fn):
 
 
 def returns_result(fn):
-    return (fn.j.get("output") or "").startswith("core::result::Result<")
+    out = fn.j.get("output") or (fn.local_ty(0) if fn.has_body else "") or ""
+    return out.startswith("core::result::Result<")
 
 
 def ok_sinks(fn):
